@@ -100,6 +100,13 @@ Proof.
   intros H. inversion H; subst. discriminate.
 Qed.
 
+Lemma final_value_nval_some vals d i ns l p v val :
+  final_value vals d i ns l p (NVal v) = Ok val -> exists r', val = Some r'.
+Proof.
+  cbn [final_value]. intros Erun. destruct (resolve vals d i 200 [(l, (ns, p))] l v); cbn [bind] in Erun; try discriminate.
+  match type of Erun with bind ?X _ = _ => destruct X end; cbn [bind] in Erun; try discriminate. inversion Erun. eexists. reflexivity.
+Qed.
+
 (** * the executable predicate holds of the model's output *)
 Theorem spec_of_model c ents : fcase_wfb c = true -> model_project c = Ok ents ->
   spec_C06 (mk_fcase (f_default c) (f_inherits c) (f_files c) (f_src c) None (Ok ents)) = true.
@@ -156,10 +163,7 @@ Proof.
   pose proof (get_value_at_lfind vals l ns p (NVal v) Eg eq_refl) as Hf.
   destruct (collect_find _ _ _ _ _ H Hf) as (val & Erun & Efind). rewrite Efind.
   unfold run_of in Erun.
-  assert (Hval : exists r', val = Some r').
-  { cbn [final_value] in Erun. destruct (resolve vals (f_default c) (f_inherits c) 200 [(l, (ns, p))] l v); cbn [bind] in Erun; try discriminate.
-    match type of Erun with bind ?X _ = _ => destruct X end; cbn [bind] in Erun; try discriminate. inversion Erun. eexists. reflexivity. }
-  destruct Hval as (r' & ->).
+  destruct (final_value_nval_some _ _ _ _ _ _ _ _ Erun) as (r' & ->).
   destruct (xdenote (src_lookup srcs) (f_default c) (f_inherits c) 40 l items) as [d|] eqn:Ed; [|reflexivity].
   assert (Es : src_lookup srcs l (ns, p) = Some (Some items)).
   { rewrite src_lookup_find. cbn [fst snd]. apply src_find_in; assumption. }
